@@ -1,6 +1,7 @@
 package main
 
 import (
+	"sort"
 	"fmt"
 	"go/ast"
 	"go/token"
@@ -412,7 +413,8 @@ func (c *Ctx) mergeIf(st *State, x *ast.IfStmt, cond string) *State {
 		m.assume("(= " + n + " (ite " + cond + " " + a.T + " " + b.T + "))")
 		return Val{T: n, S: a.S, GT: a.GT}
 	}
-	for o, v0 := range st.vars {
+	for _, o := range sortedObjs(st.vars) {
+		v0 := st.vars[o]
 		a, ok1 := r1.vars[o]
 		b, ok2 := r2.vars[o]
 		if !ok1 {
@@ -440,7 +442,7 @@ func (c *Ctx) mergeIf(st *State, x *ast.IfStmt, cond string) *State {
 	for k2 := range r2.heap {
 		keys[k2] = true
 	}
-	for k2 := range keys {
+	for _, k2 := range sortedKeys(keys) {
 		as, ok := heapSorts[k2]
 		if !ok {
 			c.note("if-merge gave up: unknown sort of heap key " + k2)
@@ -463,7 +465,7 @@ func (c *Ctx) mergeIf(st *State, x *ast.IfStmt, cond string) *State {
 	for g := range r2.ghost {
 		gk[g] = true
 	}
-	for g := range gk {
+	for _, g := range sortedKeys(gk) {
 		a, ok1 := r1.ghost[g]
 		b, ok2 := r2.ghost[g]
 		if !ok1 || !ok2 {
@@ -1081,4 +1083,18 @@ func (c *Ctx) inlineGo(fl *ast.FuncLit) bool {
 		}
 	}
 	return false
+}
+
+func sortedObjs(m map[types.Object]Val) []types.Object {
+	out := make([]types.Object, 0, len(m))
+	for o := range m {
+		out = append(out, o)
+	}
+	sort.Slice(out, func(i, j int) bool {
+		if out[i].Pos() != out[j].Pos() {
+			return out[i].Pos() < out[j].Pos()
+		}
+		return out[i].Name() < out[j].Name()
+	})
+	return out
 }
